@@ -359,6 +359,19 @@ def _mut_worker(task):
         sys.path.insert(0, VERIF)
     modname, idx, op, ordinal, desc = task
     unit = importlib.import_module(modname).UNITS[idx]
+    # a mutant may make the interpreter loop or allocate without end (e.g. iterate a symbolic sequence): bound both
+    import resource
+    import signal
+    try:
+        resource.setrlimit(resource.RLIMIT_AS, (6 << 30, 6 << 30))
+    except (ValueError, OSError):
+        pass
+
+    def _alarm(signum, frame):
+        raise TimeoutError("mutant exceeded its time budget")
+
+    signal.signal(signal.SIGALRM, _alarm)
+    signal.alarm(int(os.environ.get("VERIF_MUTANT_TIMEOUT", "240")))
     try:
         mod, qual = unit.target.split(":")
         fn = find_function(mod, qual)[0]
@@ -387,6 +400,8 @@ def _mut_worker(task):
         return desc, "survived"
     except Exception as ex:  # a mutant that crashes the generator counts as undecided, not as killed by a counter-model
         return desc, "killed-undecided"
+    finally:
+        signal.alarm(0)
 
 
 def mutation_audit(modname: str, units_list: List[Unit], budget_per_unit: int = 40, workers: int = 16, skip=()) -> List[dict]:
